@@ -523,7 +523,11 @@ def r12_7(ctx, A):
         odd = False
         for d in p.decisions:
             e = strip(d[2])
-            if e[0] == 'bin' and is_len(e[2]) and strip(e[3])[0] == 'const':
+            if is_len(e) and isinstance(d[3], int):
+                lens.append(('Eq', d[3], 1))            # `match cells.len() { 1 => .., 2 => .., _ => .. }`
+            elif is_len(e) and isinstance(d[3], tuple) and d[3] and d[3][0] == 'not':
+                lens.extend(('Ne', v, 1) for v in d[3][1])
+            elif e[0] == 'bin' and is_len(e[2]) and strip(e[3])[0] == 'const':
                 lens.append((e[1], strip(e[3])[1], d[3]))
             elif e[0] == 'bin' and is_len(e[3]) and strip(e[2])[0] == 'const':
                 lens.append(({'Lt': 'Gt', 'Gt': 'Lt', 'Le': 'Ge', 'Ge': 'Le'}.get(e[1], e[1]), strip(e[2])[1], d[3]))
